@@ -6,6 +6,7 @@ import (
 	"fmt"
 	"math"
 	"math/big"
+	"reflect"
 	"strconv"
 
 	"go.lstv.dev/util/constraint"
@@ -481,7 +482,42 @@ func sizeBytes(e Ev) Ev {
 	return e
 }
 
+// bitPattern is the two's-complement (integers) or IEEE 754 (floats) bit pattern of a numeric
+// value in its own width, most significant bit first.
+func bitPattern(v any, bits int) []int {
+	rv := reflect.ValueOf(v)
+	var u uint64
+	switch {
+	case rv.CanFloat() && bits == 32:
+		u = uint64(math.Float32bits(float32(rv.Float())))
+	case rv.CanFloat():
+		u = math.Float64bits(rv.Float())
+	case rv.CanInt():
+		u = uint64(rv.Int())
+	default:
+		u = rv.Uint()
+	}
+	out := make([]int, bits)
+	for i := 0; i < bits; i++ {
+		out[i] = int(u >> uint(bits-1-i) & 1)
+	}
+	return out
+}
+
+// kindPatterns observes constraint.SmallestNonzero for every kind and constraint.Max / Min for the
+// float kinds (whose decimal digits would not fit the integer columns of the event).
+func kindPatterns[N constraint.Numbers]() (snz, fmax, fmin []int) {
+	bits := constraint.SizeBits[N]()
+	snz = bitPattern(constraint.SmallestNonzero[N](), bits)
+	fmax, fmin = []int{}, []int{}
+	if constraint.IsFloat[N]() {
+		fmax, fmin = bitPattern(constraint.Max[N](), bits), bitPattern(constraint.Min[N](), bits)
+	}
+	return
+}
+
 func kindOf[N constraint.Numbers]() (max, minabs []int, bits int, isf, iss bool) {
+	lastSnz, lastFmax, lastFmin = kindPatterns[N]()
 	isf, iss = constraint.IsFloat[N](), constraint.IsSigned[N]()
 	bits = constraint.SizeBits[N]()
 	if isf {
@@ -494,6 +530,8 @@ func kindOf[N constraint.Numbers]() (max, minabs []int, bits int, isf, iss bool)
 	}
 	return max, digStr(mn), bits, isf, iss
 }
+
+var lastSnz, lastFmax, lastFmin []int // filled by kindOf for the event being built (the harness core is sequential)
 
 func constraintKind(e Ev) Ev {
 	var max, mn []int
@@ -542,5 +580,6 @@ func constraintKind(e Ev) Ev {
 	}
 	e["kind"] = baseKind(kind)
 	e["max"], e["minabs"], e["bits"], e["isfloat"], e["issigned"] = max, mn, bits, isf, iss
+	e["snz"], e["fmax"], e["fmin"] = lastSnz, lastFmax, lastFmin
 	return e
 }
